@@ -500,7 +500,7 @@ def dismiss_rule(ctx: Ctx, rule: str) -> None:
     rep.floor(rule, n6, 2)
 
 
-def tracked_type_table(ctx: Ctx) -> None:
+def tracked_type_table(ctx: Ctx, rule: str = "C01.R4") -> None:
     rep = ctx.report
     prog = ctx.prog
     cls = prog.funcs.get("dds._retrieve_objects._is_authorized_type")
@@ -555,13 +555,13 @@ def tracked_type_table(ctx: Ctx) -> None:
             bad.append(f"{py.__module__}.{py.__name__} (hashed by the `{nm}` branch of the value hasher): classified as external -> only the variable's *name* enters the signature")
     desc = f"every plain type the value hasher supports ({[t[0] for t in tags]}) is tracked by value (or refused loudly) when it is the type of a module variable"
     if bad:
-        rep.bad("C01.R4", cls.qname, desc, cls.loc(), bad + ["changing the value of such a variable (FLAG = True -> False, a tuple, None, a date) leaves every signature unchanged: stale results are served"],
+        rep.bad(rule, cls.qname, desc, cls.loc(), bad + ["changing the value of such a variable (FLAG = True -> False, a tuple, None, a date) leaves every signature unchanged: stale results are served"],
                 "tracked-types", what="module variables of some hashable plain types are not tracked by value")
     elif und:
-        rep.unknown("C01.R4", cls.qname, "type classifier uses syntax outside the abstract evaluator", cls.loc(), und)
+        rep.unknown(rule, cls.qname, "type classifier uses syntax outside the abstract evaluator", cls.loc(), und)
     else:
-        rep.ok("C01.R4", cls.qname, desc, cls.loc())
-    rep.floor("C01.R4", n, 8)
+        rep.ok(rule, cls.qname, desc, cls.loc())
+    rep.floor(rule, n, 8)
     # each structural option switches its own types and nothing else
     kinds = {"list": ("list", "tuple"), "dict": ("dict", "OrderedDict")}
     wrong = []
@@ -600,9 +600,9 @@ def tracked_type_table(ctx: Ctx) -> None:
                 wrong.append(f"with the accept-{off} option switched off, {py.__name__} variables are still tracked")
     desc2 = "the accept-list option governs list / tuple variables and the accept-dict option dict / OrderedDict variables, independently"
     if wrong:
-        rep.bad("C01.R4", cls.qname, desc2, cls.loc(), wrong + ["a dict module variable read by a tracked function becomes a name-only dependency: changing its content serves the stale result"],
+        rep.bad(rule, cls.qname, desc2, cls.loc(), wrong + ["a dict module variable read by a tracked function becomes a name-only dependency: changing its content serves the stale result"],
                 "tracked-types-options", what="a structural option of the type classifier governs the wrong types")
     elif und2:
-        rep.unknown("C01.R4", cls.qname, "option sensitivity of the type classifier not evaluated", cls.loc(), und2)
+        rep.unknown(rule, cls.qname, "option sensitivity of the type classifier not evaluated", cls.loc(), und2)
     else:
-        rep.ok("C01.R4", cls.qname, desc2, cls.loc())
+        rep.ok(rule, cls.qname, desc2, cls.loc())
